@@ -111,6 +111,26 @@ def candidates(pp, subs, before, after, extra=()):
                     pb = ref.per_base(rs, base)
                     if pb:
                         out.append((base, float(ref.base_amount(pp, rs, pure) * pb), s.name))
+    # 'nothing' is a true amount only of an operation that changed nothing: the zeros contributed by substances and objects that
+    # the operation did not touch are withdrawn (they used to let 'by adding 0 L' pass for a step that added 3 mL)
+    n_extra = len(extra)
+    any_change = any((b.contents if b is not None else {}) != (a.contents if a is not None else {}) and
+                     any(abs((a.contents if a is not None else {}).get(s, 0.0) - (b.contents if b is not None else {}).get(s, 0.0)) > 0
+                         for s in set(b.contents if b is not None else {}) | set(a.contents if a is not None else {}))
+                     for b, a in zip(before, after))
+    if any_change:
+        out = list(out[:n_extra]) + [c for c in out[n_extra:] if c[1] != 0.0]
+    # a substance that changed but has no measure in a unit (an enzyme in moles; a substance without volume in litres): its
+    # amount in that unit is truly zero
+    for b, a in zip(before, after):
+        bc = b.contents if b is not None else {}
+        ac = a.contents if a is not None else {}
+        for s in set(bc) | set(ac):
+            if ac.get(s, 0.0) != bc.get(s, 0.0):
+                rs = ref.rsub(s)
+                for base in ('L', 'g', 'mol', 'U'):
+                    if not ref.per_base(rs, base):
+                        out.append((base, 0.0, s.name))
     return out
 
 
@@ -127,6 +147,10 @@ def check_text(pp, text, cands, names, where, case, feat):
         pr = pp.config.precisions
         d = min(decimals(num), pr[prefix + base] if prefix + base in pr else pr['default'])
         tol = 0.5 * 10.0 ** -d * float(ref.SI[prefix]) * 1.0001
+        if val == 0:
+            # the texts rescale to milli / micro units: a correct rendering of 3 mL is '3.0 mL', never '0 L'. A printed zero stands for
+            # less than one micro-unit
+            tol = min(tol, 1e-6)
         ok = any(cb == base and (name is None or cn == name) and abs(val - cv) <= tol + 1e-7 * abs(cv) for cb, cv, cn in cands)
         if not ok:
             near = sorted(((abs(val - cv), cv, cn) for cb, cv, cn in cands if cb == base and (name is None or cn == name)),
@@ -175,7 +199,7 @@ def direct_cases():
     for c in ('0.3 M', '0.05 M', '1 mM', '0.01 g/g', '2 g/L'):
         acts.append({'op': 'dilute', 'obj': 'K', 'solute': 'nacl', 'conc': c, 'solvent': 'water'})
     for q in ('30 mL', '0.2 L', '21 g', '20.6 mL', '20.0005 mL' if False else '25 g', '2 mol'):
-        for solvent in ('water', 'dmso'):
+        for solvent in ('water', 'dmso', 'lipase'):          # (an enzyme as the filler: it has a density in U/mL)
             acts.append({'op': 'fill_to', 'obj': 'K', 'solvent': solvent, 'q': q})
     for kw in ({'concentration': '0.5 M', 'total_quantity': '100 mL'}, {'concentration': '1 mM', 'total_quantity': '2 mL'},
                {'quantity': '3 mg', 'total_quantity': '500 uL'}, {'concentration': '0.02 g/g', 'quantity': '1.5 g'},
@@ -334,11 +358,13 @@ def _program(prog_idx):
             after.append(oa)
     req = [v for v in (act.get('q'),) if v] + [v for v in (act.get('kw') or {}).values() if isinstance(v, str)]
     cands = candidates(pp, subs, before, after, requested(*req))
+    step_cands = list(cands)           # the STEP's text states what the step did: 'by adding 0 L' is true only if nothing was added
     if act['op'] == 'fill_to':
-        # bake performs a recipe fill_to twice (whole object, then the addressed part): the second fill truly adds nothing
+        # bake performs a recipe fill_to twice (whole object, then the addressed part): the second fill truly adds nothing, and
+        # the line that it appends to the object's own instructions says so
         cands.append(('L', 0.0, act['solvent']))
     case = {'family': 'recipe', 'vidx': vidx, 'program': program}
-    vs, k = check_text(pp, step.instructions, cands, names, f"step {i} of [{' ; '.join(e1.act_str(a) for a in program)}]", case,
+    vs, k = check_text(pp, step.instructions, step_cands, names, f"step {i} of [{' ; '.join(e1.act_str(a) for a in program)}]", case,
                        f"RecipeStep,{e2.step_kind(act)}")
     ntok += k
     out += vs
